@@ -27,23 +27,34 @@ Lemma conn_read_spec space c got e c' :
   conn_read space c = (got, e, c') ->
   got ++ c_rest c' = c_rest c /\ lenN got <= space /\
   ((e = None /\ got <> [] /\ (length (c_rest c') < length (c_rest c))%nat) \/
+   (e = Some REof /\ got <> [] /\ c_rest c' = [] /\ (length (c_rest c') < length (c_rest c))%nat) \/
    (e = Some REof /\ got = [] /\ c_rest c = [] /\ c' = c)).
 Proof.
   intros Hs. unfold conn_read.
   destruct (c_rest c) as [|x r] eqn:E.
-  - intros [= <- <- <-]. rewrite E. repeat split; try (cbn; lia). right. auto.
+  - intros [= <- <- <-]. rewrite E. repeat split; try (cbn; lia). right. right. auto.
   - set (seg := match c_sched c with [] => lenN (x :: r) | s :: _ => N.max 1 s end).
     set (k := N.min space (N.min seg (lenN (x :: r)))).
-    intros [= <- <- <-]. cbn [c_rest].
     assert (Hseg : 1 <= seg).
     { unfold seg. destruct (c_sched c); [unfold lenN; cbn [length]; lia | lia]. }
     assert (Hk : 1 <= k /\ k <= space /\ k <= lenN (x :: r)).
     { unfold k. unfold lenN in *. cbn [length] in *. lia. }
-    split; [apply firstn_skipn|]. split.
-    + rewrite lenN_firstn by lia. lia.
-    + left. split; [reflexivity|]. split.
-      * destruct (N.to_nat k) eqn:Ek; [lia|]. cbn [firstn]. discriminate.
-      * rewrite skipn_length. unfold lenN in Hk. lia.
+    assert (Hg : firstn (N.to_nat k) (x :: r) <> []).
+    { destruct (N.to_nat k) eqn:Ek; [lia|]. cbn [firstn]. discriminate. }
+    assert (Hl : (length (skipn (N.to_nat k) (x :: r)) < length (x :: r))%nat).
+    { rewrite skipn_length. unfold lenN in Hk. lia. }
+    assert (Hcat : firstn (N.to_nat k) (x :: r) ++ skipn (N.to_nat k) (x :: r) = x :: r)
+      by apply firstn_skipn.
+    assert (Hlen : lenN (firstn (N.to_nat k) (x :: r)) <= space)
+      by (rewrite lenN_firstn by lia; lia).
+    revert Hl Hcat. generalize (skipn (N.to_nat k) (x :: r)) as rest.
+    intros rest Hl Hcat [= <- <- <-]. cbn [c_rest].
+    split; [assumption|]. split; [assumption|].
+    destruct rest as [|y rest'].
+    + destruct (c_late c).
+      * right. left. auto.
+      * left. auto.
+    + left. auto.
 Qed.
 
 (** The invariant of the reader: the buffer never exceeds its capacity and
@@ -62,7 +73,7 @@ Lemma fill_spec cap b :
     b_pulled b' + lenN (b_buf b) = b_pulled b + lenN (b_buf b') /\
     (exists ext, b_buf b' = b_buf b ++ ext) /\
     ((b_err b' = None /\ (length (c_rest (b_conn b')) < length (c_rest (b_conn b)))%nat) \/
-     (b_err b' = Some REof /\ b_buf b' = b_buf b)).
+     b_err b' = Some REof).
 Proof.
   intros Hlt. unfold fill.
   destruct (N.leb_spec cap (lenN (b_buf b))) as [H|_]; [lia|].
@@ -73,10 +84,10 @@ Proof.
   split; [rewrite <- app_assoc, Hrest; reflexivity|].
   rewrite lenN_app.
   split; [|split; [lia|split; [eexists; reflexivity|]]].
-  - split; [lia|]. destruct Hcase as [(-> & _)|(-> & _ & Hc & ->)]; [left; reflexivity|right; auto].
-  - destruct Hcase as [(-> & _ & Hl)|(-> & -> & _ & ->)].
-    + left. auto.
-    + right. rewrite app_nil_r. auto.
+  - split; [lia|].
+    destruct Hcase as [(-> & _)|[(-> & _ & Hc & _)|(-> & _ & Hc & ->)]];
+      [left; reflexivity|right; auto|right; auto].
+  - destruct Hcase as [(-> & _ & Hl)|[(-> & _)|(-> & _)]]; auto.
 Qed.
 
 Lemma peek_loop_spec cap n : forall fuel b,
@@ -93,7 +104,7 @@ Proof.
   destruct ((lenN (b_buf b) <? n) && (lenN (b_buf b) <? cap) && is_none (b_err b)) eqn:C.
   - apply andb_true_iff in C as [C Cerr]. apply andb_true_iff in C as [Cn Ccap].
     destruct (fill_spec cap b ltac:(lia)) as (b1 & -> & Hrem & Hinv1 & Hp & [ext1 Hext] & Hcase).
-    destruct Hcase as [(He & Hl)|(He & Hb)].
+    destruct Hcase as [(He & Hl)|He].
     + destruct (IH b1 Hinv1 ltac:(lia)) as (b' & -> & Hrem' & Hinv' & Hp' & [ext2 Hext'] & Hexit).
       exists b'. split; [reflexivity|]. split; [congruence|]. split; [assumption|].
       split; [lia|]. split; [|assumption].
@@ -152,13 +163,15 @@ Proof.
       now rewrite firstn_O, app_nil_r.
 Qed.
 
-(** Read hands out the next bytes owed, in order, without loss. *)
+(** Read hands out the next bytes owed, in order, without loss.  An error is
+    only ever the end of the stream, reported when nothing more is owed
+    (possibly together with the last bytes). *)
 Lemma bread_spec cap m b got e b' :
   0 < cap -> binv cap b ->
   bread cap m b = (got, e, b') ->
   got ++ remaining b' = remaining b /\ binv cap b' /\ lenN got <= m /\
-  (e = None \/ (e = Some REof /\ got = [] /\ remaining b = [])) /\
-  (0 < m -> remaining b <> [] -> got <> [] /\ e = None).
+  (e = None \/ (e = Some REof /\ remaining b' = [])) /\
+  (0 < m -> remaining b <> [] -> got <> []).
 Proof.
   destruct b as [buf err c pulled]. unfold binv, bread, remaining.
   cbn [b_buf b_err b_conn b_pulled clear_err].
@@ -183,28 +196,29 @@ Proof.
            intros [= <- <- <-]. cbn [b_buf b_conn b_err app].
            split; [assumption|]. split; [split; [cbn; lia|left; reflexivity]|].
            split; [assumption|].
-           destruct Hcase as [(-> & Hne & _)|(-> & -> & Hc & ->)].
+           destruct Hcase as [(-> & Hne & _)|[(-> & Hne & Hc & _)|(-> & -> & Hc & ->)]].
            ++ split; [left; reflexivity|]. auto.
+           ++ split; [right; auto|]. auto.
            ++ split; [right; auto|]. intros _ Hne. now rewrite Hc in Hne.
         -- destruct (conn_read cap c) as [[g e1] c1] eqn:E.
            apply conn_read_spec in E; [|lia]. destruct E as (Hrest & Hlen & Hcase).
            destruct g as [|y g'].
            ++ intros [= <- <- <-]. cbn [b_buf b_conn b_err app].
-              destruct Hcase as [(_ & Hne & _)|(-> & _ & Hc & ->)]; [contradiction|].
+              destruct Hcase as [(_ & Hne & _)|[(_ & Hne & _)|(-> & _ & Hc & ->)]]; try contradiction.
               split; [reflexivity|]. split; [split; [cbn; lia|left; reflexivity]|].
               split; [cbn; lia|]. split; [right; auto|]. intros _ Hne. now rewrite Hc in Hne.
            ++ intros [= <- <- <-]. cbn [b_buf b_conn b_err].
-              destruct Hcase as [(-> & _ & _)|(_ & [=] & _)].
               split; [rewrite app_assoc, firstn_skipn; assumption|].
               split.
-              { split; [|left; reflexivity].
-                pose proof (skipn_length (N.to_nat m) (y :: g')) as L.
-                unfold lenN in *. lia. }
+              { split.
+                - pose proof (skipn_length (N.to_nat m) (y :: g')) as L. unfold lenN in *. lia.
+                - destruct Hcase as [(-> & _)|[(-> & _ & Hc & _)|(_ & [=] & _)]];
+                    [left; reflexivity|right; auto]. }
               split.
               { pose proof (firstn_le_length (N.to_nat m) (y :: g')) as L1.
                 pose proof (firstn_length (N.to_nat m) (y :: g')) as L2.
                 unfold lenN. lia. }
-              split; [left; reflexivity|]. intros _ _. split; [|reflexivity].
+              split; [left; reflexivity|]. intros _ _.
               destruct (N.to_nat m) eqn:Em; [lia|]. cbn [firstn]. discriminate.
     + intros [= <- <- <-]. cbn [b_buf b_conn b_err].
       split; [rewrite app_assoc, firstn_skipn; reflexivity|].
@@ -213,7 +227,7 @@ Proof.
         pose proof (skipn_length (N.to_nat m) (x :: r)) as L. unfold lenN in *. lia. }
       split.
       { pose proof (firstn_length (N.to_nat m) (x :: r)) as L2. unfold lenN. lia. }
-      split; [left; reflexivity|]. intros _ _. split; [|reflexivity].
+      split; [left; reflexivity|]. intros _ _.
       destruct (N.to_nat m) eqn:Em; [lia|]. cbn [firstn]. discriminate.
 Qed.
 
@@ -234,8 +248,7 @@ Proof.
     destruct e1 as [e1|].
     + intros [= <- <- <-]. cbn [concat]. rewrite app_nil_r.
       split; [assumption|]. split; [assumption|]. intros _.
-      destruct He1 as [|(-> & -> & Hr)]; [discriminate|].
-      rewrite Hr in Hrem. cbn [app] in Hrem. auto.
+      destruct He1 as [|(-> & Hr)]; [discriminate|]. auto.
     + destruct (breads cap ms b1) as [[l e2] b2] eqn:E2.
       intros [= <- <- <-].
       destruct (IH b1 l e2 b2 Hcap Hinv1 E2) as (Hrem2 & Hinv2 & He2).
@@ -247,11 +260,11 @@ Qed.
 Lemma bread_progress cap m b got e b' :
   0 < cap -> binv cap b -> 0 < m -> remaining b <> [] ->
   bread cap m b = (got, e, b') ->
-  (length (remaining b') < length (remaining b))%nat /\ e = None.
+  (length (remaining b') < length (remaining b))%nat /\ got <> [].
 Proof.
   intros Hcap Hinv Hm Hne E.
   destruct (bread_spec cap m b got e b' Hcap Hinv E) as (Hrem & _ & _ & _ & Hp).
-  destruct (Hp Hm Hne) as [Hg ->]. split; [|reflexivity].
+  pose proof (Hp Hm Hne) as Hg. split; [|assumption].
   rewrite <- Hrem, app_length. destruct got; [contradiction|cbn [length]; lia].
 Qed.
 
@@ -864,22 +877,22 @@ Proof. intros _. unfold build_hello, be16, lenN. cbn [length app]. lia. Qed.
 
 (** HelloInfo on a stream that starts with a well-formed hello in one
     record, whatever follows and however the bytes arrive. *)
-Theorem sniff_exact cap h extra rest sched :
+Theorem sniff_exact cap h extra rest sched late :
   wf_hellob h = true ->
   lenN (hello_msg h ++ extra) <= max_plaintext ->
   5 + max_plaintext <= cap ->
   let stream := build_hello h extra ++ rest in
   exists b',
-    sniff cap (br_new (mkConn stream sched)) = Ok (SInfo (spec_name h) (spec_protos h), b') /\
+    sniff cap (br_new (mkConn stream sched late)) = Ok (SInfo (spec_name h) (spec_protos h), b') /\
     remaining b' = stream /\ binv cap b' /\ b_pulled b' <= cap.
 Proof.
   intros Hwf Hlen Hcap stream.
   unfold max_plaintext in *.
-  destruct (sniff_spec cap (br_new (mkConn stream sched)) ltac:(lia) (binv_new _ _)
+  destruct (sniff_spec cap (br_new (mkConn stream sched late)) ltac:(lia) (binv_new _ _)
               eq_refl eq_refl) as (b' & Hs & Hrem & Hinv & _ & Hp).
   exists b'. split; [|auto].
   rewrite Hs. f_equal. f_equal.
-  change (remaining (br_new (mkConn stream sched))) with stream.
+  change (remaining (br_new (mkConn stream sched late))) with stream.
   pose proof (wf_hellob_spec h Hwf) as (Hrv & _).
   pose proof (tls_sink_ok h extra Hwf Hlen) as Hsink.
   unfold sniff_pure, header_len.
@@ -920,10 +933,10 @@ Qed.
     segmentation and any capacity >= 5: the result is the segmentation-free
     [sniff_pure]; at most [cap] bytes are pulled; the reads then deliver the
     stream from its first byte, in order, and all of it if read to the end. *)
-Theorem sniff_then_reads cap stream sched ms :
+Theorem sniff_then_reads cap stream sched late ms :
   5 <= cap ->
   exists b1,
-    sniff cap (br_new (mkConn stream sched)) = Ok (sniff_pure cap stream, b1) /\
+    sniff cap (br_new (mkConn stream sched late)) = Ok (sniff_pure cap stream, b1) /\
     b_pulled b1 <= cap /\ binv cap b1 /\ remaining b1 = stream /\
     forall chunks e b2,
       breads cap ms b1 = (chunks, e, b2) ->
@@ -931,9 +944,9 @@ Theorem sniff_then_reads cap stream sched ms :
       (e <> None -> concat chunks = stream /\ e = Some REof).
 Proof.
   intros Hcap.
-  destruct (sniff_spec cap (br_new (mkConn stream sched)) Hcap (binv_new _ _) eq_refl eq_refl)
+  destruct (sniff_spec cap (br_new (mkConn stream sched late)) Hcap (binv_new _ _) eq_refl eq_refl)
     as (b1 & Hs & Hrem & Hinv & _ & Hp).
-  change (remaining (br_new (mkConn stream sched))) with stream in *.
+  change (remaining (br_new (mkConn stream sched late))) with stream in *.
   exists b1. split; [assumption|]. split; [assumption|]. split; [assumption|].
   split; [assumption|].
   intros chunks e b2 E.
@@ -963,4 +976,74 @@ Proof.
   destruct (tls_sink _) as [[n p]| |] eqn:E; [| |discriminate].
   - intros [= <- <-]. right. exists l1, l2, v1, v2, r. auto.
   - intros [= <- <-]. left. auto.
+Qed.
+
+(** * A ClientHello fragmented over several records
+
+    crypto/tls accepts a handshake message spread over several records;
+    HelloInfo hands its throw-away server the first record only.  Whatever
+    follows, a first record that holds a proper, non-empty prefix of the hello
+    message reaches no callback: the result is an error or an empty name,
+    never a name. *)
+
+Definition frag_record (h : hello_spec) (k : N) : bytes :=
+  rec_handshake :: be16 (h_rec_vers h) ++ be16 k ++ firstn (N.to_nat k) (hello_msg h).
+
+Theorem tls_sink_fragment h k :
+  0 < k -> k < lenN (hello_msg h) -> k < 65536 ->
+  lenN (hello_body h) < 16777216 ->
+  tls_sink (frag_record h k) = PFail.
+Proof.
+  intros Hk0 Hk Hk16 Hb. unfold frag_record, tls_sink, be16 at 1 2. cbn [app].
+  assert (Hkk : k / 256 mod 256 * 256 + k mod 256 = k) by lia. rewrite Hkk.
+  set (payload := firstn (N.to_nat k) (hello_msg h)).
+  assert (Hpl : lenN payload = k) by (unfold payload; apply lenN_firstn; lia).
+  destruct (negb (rec_handshake =? rec_handshake)); [reflexivity|].
+  destruct (4096 <=? _); [reflexivity|]. destruct (max_ciphertext <? k); [reflexivity|].
+  rewrite Hpl. destruct (N.ltb_spec k k); [lia|].
+  rewrite firstn_all_lenN by lia.
+  destruct (max_plaintext <? k); [reflexivity|].
+  destruct (N.eqb_spec k 0); [lia|].
+  unfold payload, hello_msg, be24.
+  set (L := lenN (hello_body h)) in *.
+  destruct (N.to_nat k) as [|[|[|[|k4]]]] eqn:Ek; try reflexivity.
+  cbn [firstn app].
+  assert (HL : L / 65536 mod 256 * 65536 + L / 256 mod 256 * 256 + L mod 256 = L) by lia.
+  rewrite HL. destruct (max_handshake <? L); [reflexivity|].
+  rewrite lenN_hello_msg in Hk. fold L in Hk.
+  destruct (N.ltb_spec k (4 + L)); [reflexivity|lia].
+Qed.
+
+Theorem sniff_pure_fragment cap h k rest :
+  0 < k -> k < lenN (hello_msg h) -> k < 65536 -> h_rec_vers h < 65536 ->
+  lenN (hello_body h) < 16777216 ->
+  match sniff_pure cap (frag_record h k ++ rest) with
+  | SInfo name protos => name = [] /\ protos = []
+  | SErr _ => True
+  | SFuel => False
+  end.
+Proof.
+  intros Hk0 Hk Hk16 Hv Hb.
+  pose proof (tls_sink_fragment h k Hk0 Hk Hk16 Hb) as Hsink.
+  assert (Hlen : lenN (frag_record h k) = 5 + k).
+  { unfold frag_record, be16, lenN. cbn [length app]. rewrite firstn_length.
+    unfold lenN in Hk. lia. }
+  assert (Heq : sniff_pure cap (frag_record h k ++ rest) =
+                if cap <? 5 + k then SErr RFull
+                else if lenN (frag_record h k ++ rest) <? 5 + k then SErr REof
+                else SInfo [] []).
+  { unfold sniff_pure, header_len.
+    destruct (N.ltb_spec (lenN (frag_record h k ++ rest)) 5) as [Hx|_].
+    { rewrite lenN_app, Hlen in Hx. lia. }
+    assert (E : frag_record h k ++ rest =
+                rec_handshake :: (h_rec_vers h / 256 mod 256) :: (h_rec_vers h mod 256)
+                :: (k / 256 mod 256) :: (k mod 256)
+                :: (firstn (N.to_nat k) (hello_msg h) ++ rest)) by reflexivity.
+    rewrite E at 1. change (rec_handshake =? rec_handshake) with true. cbn [negb].
+    assert (Hkk : k / 256 mod 256 * 256 + k mod 256 = k) by lia. rewrite Hkk.
+    destruct (cap <? 5 + k); [reflexivity|].
+    destruct (lenN (frag_record h k ++ rest) <? 5 + k); [reflexivity|].
+    rewrite <- Hlen, firstn_lenN_app, Hsink. reflexivity. }
+  rewrite Heq. destruct (cap <? 5 + k); [exact I|].
+  destruct (lenN (frag_record h k ++ rest) <? 5 + k); [exact I|]. auto.
 Qed.
